@@ -59,29 +59,124 @@ theorem task_accounting (nw : Nat) (es : List Event) (s : State)
       · exact absurd h1 hh
       · exact h1
 
-/-- **(a) exactly once at destruction**: once `~ThreadPool` has joined its workers, every task
-    ever submitted has run exactly once and the queue is empty ("destroying the pool runs all
-    queued tasks before joining"). -/
-theorem exactly_once_after_join (nw : Nat) (es : List Event) (s : State)
+/-- **(a) exactly once at destruction**: once `~ThreadPool` has joined its workers (at least one
+    worker: a pool built with 0 threads never runs anything), every task ever submitted has run
+    exactly once and the queue is empty ("destroying the pool runs all queued tasks before joining"). -/
+theorem exactly_once_after_join (nw : Nat) (hnw : 0 < nw) (es : List Event) (s : State)
     (h : (pool nw).run (pool nw).init es = some s) (hj : s.joined = true) :
-    (∀ t, t < s.next → s.execCount t = 1) ∧ (0 < nw → s.queue = []) := by
+    (∀ t, t < s.next → s.execCount t = 1) ∧ s.queue = [] := by
   have hinv := inv_reachable nw es s h
   have hex := hinv.joined hj
-  refine ⟨?_, fun hnw => (hinv.exited 0 (hex 0 hnw)).2⟩
+  have hq : s.queue = [] := (hinv.exited 0 (hex 0 hnw)).2
+  refine ⟨?_, hq⟩
   intro t ht
   rcases hinv.cover t ht with h1 | ⟨i, h1⟩ | h1
-  · -- a queued task: impossible once a worker has exited ... unless the pool has no worker
-    cases hnw : nw with
-    | zero =>
-      -- a pool without workers never pops: `join` is immediate; tasks stay queued.
-      -- This degenerate case is excluded by `ThreadPool(n)` users (n ≥ 1); see `exactly_once_after_join'`
-      exfalso
-      sorry
-    | succ n =>
-      have := (hinv.exited 0 (hex 0 (by omega))).2
-      rw [this] at h1; cases h1
+  · rw [hq] at h1; cases h1
   · have hi : i < nw := hinv.bound i (by intro e; rw [e] at h1; exact holds_idle t h1)
     rw [hex i hi] at h1; exact absurd h1 (holds_exited t)
   · exact h1
+
+/-- **(b) wait() is complete**: when `wait()` returns, every task submitted before it acquired
+    the mutex (`snap` = number of tasks submitted at that instant; a task submitted before the call
+    has its locked `emplace` before it) has run — exactly once. -/
+theorem wait_complete (nw : Nat) (es : List Event) (s : State)
+    (h : (pool nw).run (pool nw).init es = some s) (c snap : Nat)
+    (hr : s.waiter c = .returned snap) : ∀ t, t < snap → s.execCount t = 1 := by
+  have := (inv_reachable nw es s h).waiters c
+  rw [hr] at this; exact this
+
+/-- while `wait()` is in its second loop, no old task is queued or owned by a worker already
+    seen IDLE (the reason why (b) holds) -/
+theorem wait_second_loop (nw : Nat) (es : List Event) (s : State)
+    (h : (pool nw).run (pool nw).init es = some s) (c snap k : Nat)
+    (hr : s.waiter c = .p2 snap k) :
+    ∀ t, t < snap → t ∉ s.queue ∧ ∀ i, i < k → ¬ (s.w i).holds t := by
+  have := (inv_reachable nw es s h).waiters c
+  rw [hr] at this; exact this.2.2
+
+/-- **(c) workers exit only with `stop && tasks.empty()`** — and the queue stays empty afterwards -/
+theorem worker_exit (nw : Nat) (es : List Event) (s : State)
+    (h : (pool nw).run (pool nw).init es = some s) (i : Nat) (hi : s.w i = .exited) :
+    s.stop = true ∧ s.queue = [] :=
+  (inv_reachable nw es s h).exited i hi
+
+/-- **(d) addTask after stop throws**: on a stopped pool `submit` is never enabled, only the
+    rejection is -/
+theorem submit_after_stop (nw : Nat) (s : State) (hs : s.stop = true) (t : Nat) :
+    (pool nw).step s (.submit t) = none ∧ (pool nw).step s .submitRejected = some s := by
+  simp [pool, step, hs]
+
+/-- the stop flag is never cleared -/
+theorem stop_stable (nw : Nat) : (pool nw).Stable (fun s => s.stop = true) := by
+  intro s e s' hs hst
+  cases e <;> simp only [pool, step] at hst <;> (try split at hst) <;> (try split at hst) <;>
+    simp_all <;> (try (subst hst; simp_all)) <;> grind
+
+/-- **(e) future content = task outcome**: a future holds a value only if its task ran (exactly
+    once), and that content is the one stored by this execution, for ever. -/
+theorem future_content (nw : Nat) (es : List Event) (s : State)
+    (h : (pool nw).run (pool nw).init es = some s) (t : Nat) (r : Int) (hf : s.fut t = some r) :
+    s.execCount t = 1 ∧
+    ∀ es' s', (pool nw).run s es' = some s' → s'.fut t = some r := by
+  have hinv := inv_reachable nw es s h
+  refine ⟨hinv.fut t r hf, ?_⟩
+  intro es'
+  induction es' generalizing s es with
+  | nil => intro s' hs'; simp only [Sys.run, Option.some.injEq] at hs'; exact hs' ▸ hf
+  | cons e es' ih =>
+    intro s' hs'
+    simp only [Sys.run] at hs'
+    cases hst : (pool nw).step s e with
+    | none => rw [hst] at hs'; simp at hs'
+    | some s1 =>
+      rw [hst] at hs'
+      have hrun1 : (pool nw).run (pool nw).init (es ++ [e]) = some s1 := by
+        rw [(pool nw).run_snoc _ s es e h]; exact hst
+      exact ih (es ++ [e]) s1 hrun1 (fut_step nw s s1 e t r hinv hf hst) (inv_reachable nw _ s1 hrun1) s' hs'
+
+/-- the value read from a future (`get t r` accepted) is the value its execution stored -/
+theorem get_reads_execution (nw : Nat) (es : List Event) (s : State) (t : Nat) (r : Int)
+    (h : (pool nw).run (pool nw).init (es ++ [.get t r]) = some s) :
+    s.fut t = some r ∧ s.execCount t = 1 := by
+  obtain ⟨s1, h1, h2⟩ := (pool nw).run_prefix _ s es [.get t r] h
+  simp only [Sys.run] at h2
+  cases hst : (pool nw).step s1 (.get t r) with
+  | none => rw [hst] at h2; simp at h2
+  | some s2 =>
+    rw [hst] at h2
+    simp only [Option.some.injEq] at h2
+    subst h2
+    simp only [pool, step] at hst
+    split at hst <;> simp at hst
+    rename_i hf
+    subst hst
+    exact ⟨hf, (inv_reachable nw es s1 h1).fut t r hf⟩
+
+/-! ### enabledness (partial liveness: the protocol itself has no stuck worker) -/
+
+/-- a worker that is idle while the queue is not empty can always pop -/
+theorem pop_enabled (nw : Nat) (s : State) (i t : Nat) (q : List Nat) (hi : i < nw)
+    (hw : s.w i = .idle) (hq : s.queue = t :: q) : ((pool nw).step s (.pop i)).isSome = true := by
+  simp [pool, step, hi, hw, hq]
+
+/-- an idle worker of a stopped pool with an empty queue can always exit -/
+theorem exit_enabled (nw : Nat) (s : State) (i : Nat) (hi : i < nw) (hw : s.w i = .idle)
+    (hs : s.stop = true) (hq : s.queue = []) : ((pool nw).step s (.exitW i)).isSome = true := by
+  simp [pool, step, hi, hw, hs, hq]
+
+/-- a running task can always complete and its worker become idle again: a worker that is not
+    idle is never blocked by the protocol (so `wait()` is only ever waiting for task bodies) -/
+theorem finish_enabled (nw : Nat) (s : State) (i t : Nat) (hw : s.w i = .ran t) :
+    ((pool nw).step s (.finish i)).isSome = true := by
+  simp [pool, step, hw]
+
+/-! ### non-vacuity: two workers, three tasks (one throws, encoded as a negative result), a
+    `wait()` in the middle, destruction at the end -/
+example : ∃ s, (pool 2).run (pool 2).init
+    [.submit 0, .submit 1, .pop 1, .wBegin 7, .pop 0, .exec 0 1 (-5), .exec 1 0 42, .finish 1,
+     .wEmpty 7, .finish 0, .wIdle 7 0, .wIdle 7 1, .wReturn 7, .get 0 42, .submit 2, .setStop,
+     .submitRejected, .pop 1, .exitW 0, .exec 1 2 7, .finish 1, .exitW 1, .join, .get 1 (-5)] = some s ∧
+    s.joined = true ∧ s.waiter 7 = .returned 2 ∧ s.execCount 2 = 1 := by
+  simp [Sys.run, pool, step, init, upd_apply, allExited]
 
 end TfelVerif.C29.Props
